@@ -789,3 +789,26 @@ def strip(t):
             t = t[2][0]
         else:
             return t
+
+
+def peel(t):
+    """strip() applied at every level: the same term without refs / derefs / clones / casts anywhere inside"""
+    if not isinstance(t, tuple) or not t or not isinstance(t[0], str):
+        return t
+    t = strip(t)
+    k = t[0]
+    if k == 'call':
+        return ('call', t[1], tuple(peel(a) for a in t[2])) + tuple(t[3:])
+    if k == 'field':
+        return ('field', peel(t[1]), t[2])
+    if k == 'adt':
+        return ('adt', t[1], t[2], t[3], tuple(peel(a) for a in t[4]))
+    if k == 'tuple':
+        return ('tuple', tuple(peel(a) for a in t[1]))
+    if k == 'bin':
+        return ('bin', t[1], peel(t[2]), peel(t[3]))
+    if k == 'un':
+        return ('un', t[1], peel(t[2]))
+    if k == 'discr':
+        return ('discr', peel(t[1]))
+    return t
